@@ -50,6 +50,7 @@ typedef struct qop {
 	int apply_n, apply_auto;
 	int wait_item;       // B_WAIT_LATER: item to wait for
 	int depth;           // suspend: nesting depth; pause: microseconds
+	int split;           // suspend: this many of the resumes come first, the rest after the ops executed while suspended
 	int resume_after;    // suspend: number of following ops of the same list before the resumes
 	int onqueue;         // suspend issued from an item running on that queue
 	int arm_rel, arm_code; // workload-placed stall of the submitting thread inside this submission
